@@ -1330,6 +1330,12 @@ def _process_subsys_index(idx, sys_labels, slice_to_list=False):
 
     # Convert int to slice so that numpy doesn't drop dimension
     if isinstance(idx, int):
+        if idx < -len(sys_labels) or idx >= len(sys_labels):
+            raise IndexError(
+                f"signal index {idx} is out of range for system with "
+                f"{len(sys_labels)} signals")
+        if idx < 0:
+            idx += len(sys_labels)      # count from the end, as for lists
         idx = slice(idx, idx+1, 1)
 
     # Get label names (taking care of possibility that we were passed a list)
